@@ -204,6 +204,16 @@ class SBuf:
         return f"buf#{self.bid}[{self.size!r}]"
 
 
+class SCat:
+    """Bytes built by appending opaque pieces to one another (`buf = bytearray(a); buf += b`): the pieces in order."""
+
+    def __init__(self, parts: t.List[t.Any]) -> None:
+        self.parts = parts
+
+    def __repr__(self) -> str:
+        return "cat(" + ", ".join(repr(p) for p in self.parts) + ")"
+
+
 class CallVal:
     """The (unmodelled) result of a recorded call."""
 
@@ -938,6 +948,18 @@ class Evaluator:
                 return Lin.atom(("len", v.what))
             if isinstance(v, SBuf):
                 return v.size
+            if isinstance(v, CallVal) and v.rec.name.endswith("readexactly") and isinstance(v.rec.arg(0), Lin):
+                return v.rec.arg(0)  # StreamReader.readexactly(n) returns exactly n bytes or raises
+            if isinstance(v, SCat):
+                tot = Lin(0)
+                for p_ in v.parts:
+                    if isinstance(p_, CallVal) and p_.rec.name.endswith("readexactly") and isinstance(p_.rec.arg(0), Lin):
+                        tot = tot + p_.rec.arg(0)
+                    elif isinstance(p_, SBytes) and p_.length() is not None:
+                        tot = tot + p_.length()
+                    else:
+                        tot = tot + Lin.atom(("len", repr(p_)))
+                return tot
             if isinstance(v, (BSlice, CallVal)):
                 return Lin.atom(("len", repr(v)))
             raise Unsupported(f"{self.func.qual}:{e.lineno}: len({v!r})")
@@ -1135,7 +1157,15 @@ class Evaluator:
             return None
         if name == "get" and isinstance(base, tuple) and base and base[0] == "constdict" and e.args:
             key = self.eval(e.args[0], st)
-            return DictMap(base[1], key)
+            tbl = base[1]
+            if isinstance(key, SView) and tbl and all(isinstance(k_, bytes) for k_ in tbl):
+                # a table keyed by the raw bytes of a window is the table keyed by the integer those bytes spell
+                w_ = key.hi - key.lo
+                if w_.is_const() and all(len(k_) == w_.const for k_ in tbl):
+                    rid = st.new_id()
+                    st.reads.append(Read(rid, "int", key.src, key.lo, key.hi, order="little", signed=False, node=e))
+                    return DictMap({int.from_bytes(k_, "little"): v_ for k_, v_ in tbl.items()}, Lin.atom(("read", rid)))
+            return DictMap(tbl, key)
         if name == "get" and isinstance(base, Unknown):
             return Unknown(unparse(e))
         return NotImplemented
